@@ -16,6 +16,10 @@ SCENARIOS = [
          expect_obligations=["the parent's token does not continue while the inner instance has not reported that no token remains",
                              "the parent's token continues exactly once when the inner instance has completed"],
          bounds="real subProcess.NextAction/run relay loop; the inner instance is a stand-in: the harness emits CompletionTrace, TerminationTrace, then CeaseFlowTrace on the inner tracer"),
+    dict(name="C12 completion report reaches the waiting node", entry="VerifC12_CompletionReport", K=100, reach=["quiescent"],
+         overrides=dict(STD, **{"(*%s.subProcess).startAll" % ROOT: "verifSubStartAllDone"}),
+         expect_obligations=["the parent's token continues past the sub-process once every inner token is consumed", "the parent's token continues past the sub-process at most once"],
+         bounds="real flow into the real harness + subProcess.NextAction/run/ceaseFlowMonitor; the inner instance start -> end is a stand-in that has completed at once (emits the start event's FlowTrace and the end event's CompletionTrace); natively the real inner instance runs"),
     dict(name="C12 sub-process (start -> end inside), one parent token", entry="VerifC12_Basic", K=160, reach=["quiescent"], overrides=STD, tiers=("thorough",),
          expect_obligations=["the parent's token continues past the sub-process once every inner token is consumed"],
          bounds="one sub-process containing start -> end, one parent token, all interleavings", time_budget_s=1500),
